@@ -22,7 +22,7 @@ def chiral_polygon():
     return np.array([[0, 0], [3, 0.5], [3.5, 2], [2, 3.25], [0.5, 2.5]], float)
 
 
-def make(cls, rng=None, base=None, offset=True, tilt=False):
+def make(cls, rng=None, base=None, offset=True, tilt=False, opposing=False):
     """Construct a general-position, off-origin instance of the class. Returns (shape, ctor_args dict)."""
     import coxeter
 
@@ -46,6 +46,9 @@ def make(cls, rng=None, base=None, offset=True, tilt=False):
             V = V @ M.T / 4.0
         V = V + (t3 if cls != "ConvexSpheropolygon" or tilt else np.array([3.0, -2.0, 0.0]) * (1 if offset else 0))
         a = dict(vertices=V)
+        if opposing and cls == "Polygon":
+            # explicit normal opposing the vertex order: the polygon is listed clockwise about its normal (signed_area < 0)
+            a["normal"] = -np.cross(V[2] - V[1], V[0] - V[1])
         if cls == "ConvexSpheropolygon":
             a["radius"] = 0.375
     else:
